@@ -107,13 +107,16 @@ def conversation(run, pv, rng, length, threshold, abrupt, label):
     hist = build_history(rng, pv, codec, length, unknown_ids, unhandled)
     state = {'frames': None, 'login_name': None}
     burst = rng.choice((1, 7, 49, 50, 51, 120, 10 ** 6))
+    encrypted = rng.random() < 0.25
+    short_reads = rng.random() < 0.5
 
     def handler(io):
         hs = scripts.read_handshake(io)
         if hs is None:
             return
         state['handshake'] = hs
-        state['login_name'] = scripts.login_offline(io, pv, threshold, codec)
+        state['login_name'] = scripts.login_offline(io, pv, threshold, codec,
+                                                    encrypted=encrypted)
         buf = bytearray()
         n = 0
         for kind, (cid, cp), _exp in hist:
@@ -138,9 +141,12 @@ def conversation(run, pv, rng, length, threshold, abrupt, label):
     rec = pc.Recorder()
     w = {'pv': pv, 'history_len': len(hist), 'threshold': threshold,
          'burst': burst, 'abrupt': abrupt, 'codec': type(codec).__name__,
+         'encrypted': encrypted, 'short_reads': short_reads,
          'kinds': [h[0] for h in hist][:20]}
     try:
         conn = pc.make_connection(server.port, rec, allowed_versions={pv})
+        conn.vf_rng = rng
+        conn.vf_short_reads = short_reads     # partial TCP delivery
         conn.connect()
         done = pc.wait_idle(conn, 20.0)
         server.join(12.0)
@@ -156,13 +162,18 @@ def conversation(run, pv, rng, length, threshold, abrupt, label):
                 return 'done', None
             return 'inconclusive', 'server script: %r' % (server.errors[:1],)
         run.count('conversations')
+        if encrypted:
+            run.count('conversations.encrypted')
+        if short_reads:
+            run.count('conversations.short_reads')
         # ---- client-side facts -------------------------------------------
         names = {'ka': 'KeepAlivePacket', 'pos': 'PlayerPositionAndLookPacket',
                  'cb_chat': 'ChatMessagePacket',
                  'time_update': 'TimeUpdatePacket'}
         play_seen = [(type(p).__name__, p.id) for p in rec.packets
                      if type(p).__name__ not in ('LoginSuccessPacket',
-                                                 'SetCompressionPacket')]
+                                                 'SetCompressionPacket',
+                                                 'EncryptionRequestPacket')]
         want_seen = [('Packet', h[1][0]) if h[0] == 'unknown'
                      else (names[h[0]], h[1][0]) for h in hist]
         want_seen.append(('DisconnectPacket',
@@ -251,7 +262,9 @@ def run(run):
                 'boundary, position-and-look packets, unknown-id frames of '
                 'random content, known-but-unhandled packets) of length 1..600 '
                 '(crossing the 50-read/300-write batch limits), sent in bursts/'
-                'trickles/fragments, compression off/0/64; thorough adds the '
+                'trickles/fragments, compression off/0/64, a quarter of them '
+                'encrypted, half of them with forced short socket reads; '
+                'thorough adds the '
                 'fault class "peer closes right after the disconnect packet".'
                 ' Distinct = (version, history).' % len(versions))
     run.assumptions = [
